@@ -21,6 +21,27 @@ Section R.
     iso_detDF_1 (aff_A_1 P) = aff_detA_1 P /\ iso_detDF_2 (aff_A_2 P) = aff_detA_2 P /\ iso_detDF_3 (aff_A_3 P) = aff_detA_3 P /\
     iso_detDGsq_2 (aff_B_2 Q) = aff_detBsq_2 Q /\ iso_detDGsq_3 (aff_B_3 Q) = aff_detBsq_3 Q.
   Proof. repeat split; unf; ring. Qed.
+  (* the isoparametric map built from the P1 element of a straight simplicial mesh IS the affine map, and its
+     Jacobian IS A, at every reference point; the P1 basis is nodal at the reference vertices of refdom.py *)
+  Lemma p1_iso_is_affine (P : mat R) (X : vec R) :
+    veq 1 (isoF 2 p1_phi_1 P X) (mapF 1 (aff_A_1 P) (aff_b_1 P) X) /\ meq 1 (isoJ 2 p1_dphi_1 P X) (aff_A_1 P) /\
+    veq 2 (isoF 3 p1_phi_2 P X) (mapF 2 (aff_A_2 P) (aff_b_2 P) X) /\ meq 2 (isoJ 3 p1_dphi_2 P X) (aff_A_2 P) /\
+    veq 3 (isoF 4 p1_phi_3 P X) (mapF 3 (aff_A_3 P) (aff_b_3 P) X) /\ meq 3 (isoJ 4 p1_dphi_3 P X) (aff_A_3 P).
+  Proof.
+    split; [intros i Hi; idx1 i; unf; ring|]. split; [intros i j Hi Hj; idx1 i; idx1 j; unf; ring|].
+    split; [intros i Hi; idx2 i; unf; ring|]. split; [intros i j Hi Hj; idx2 i; idx2 j; unf; ring|].
+    split; [intros i Hi; idx3 i; unf; ring|]. intros i j Hi Hj; idx3 i; idx3 j; unf; ring.
+  Qed.
+  Lemma p1_nodal k k' :
+    (k < 2 -> k' < 2 -> p1_phi_1 (ref_p_line k) k' = delta k k') /\
+    (k < 3 -> k' < 3 -> p1_phi_2 (ref_p_tri k) k' = delta k k') /\
+    (k < 4 -> k' < 4 -> p1_phi_3 (ref_p_tet k) k' = delta k k').
+  Proof.
+    split; [|split]; intros Hk Hk'.
+    - idx2 k; idx2 k'; unf; ring.
+    - idx3 k; idx3 k'; unf; ring.
+    - idx4 k; idx4 k'; unf; ring.
+  Qed.
 End R.
 
 Section F.
